@@ -36,3 +36,11 @@ Proof. intros size H. unfold c_adfDevType. reflexivity. Qed.
 Theorem flop_range : forall sect, sect = 11 \/ sect = 22 ->
   s_adfMountFlop_range 80 2 sect = (0, 80 * 2 * sect - 1, 80 * sect).
 Proof. intros sect [-> | ->]; reflexivity. Qed.
+
+(* any floppy geometry: the mounted volume is exactly the device - blocks 0 .. cyl*heads*sect - 1, the last one included and none beyond *)
+Theorem flop_range_inside : forall c h sct, 0 <= c * h < 2 ^ 32 -> 0 < c * h * sct < 2 ^ 31 ->
+  let '(f, l, r) := s_adfMountFlop_range c h sct in f = 0 /\ l = c * h * sct - 1.
+Proof.
+  intros c h sct H1 H2. unfold s_adfMountFlop_range. split; [reflexivity|].
+  rewrite (cast_u32_id (c * h)) by lia. rewrite (cast_u32_id (c * h * sct)) by lia. rewrite cast_u32_id by lia. apply cast_s32_id. lia.
+Qed.
